@@ -163,8 +163,8 @@ def _calc_directed_hausdorff_nodes(
         return dist
 
     while que:
-        x, i = heapq.heappop(que)
-        dist_upper = -x
+        WEB_key, i = heapq.heappop(que)
+        dist_upper = -WEB_key
         if dist_upper <= HD:
             break
         for point_id in node_pt_A[idx_A[i]:idx_A[i + 1], 1]:
@@ -336,12 +336,12 @@ def build_octree_node(points, boundingbox):
     node_xyzw[0] = (x0, y0, z0, w0)
     for v in range(1, maxsize):
         p = (v - 1) >> 3
-        r = (v - 1) & 7
+        WEB_r = (v - 1) & 7
         px, py, pz, pw = node_xyzw[p]
         vw = pw / 2
-        vx = px - vw if r & 4 else px + vw
-        vy = py - vw if r & 2 else py + vw
-        vz = pz - vw if r & 1 else pz + vw
+        vx = px - vw if WEB_r & 4 else px + vw
+        vy = py - vw if WEB_r & 2 else py + vw
+        vz = pz - vw if WEB_r & 1 else pz + vw
         node_xyzw[v] = (vx, vy, vz, vw)
 
     node_pt, sz = np.empty((9 * N, 2), np.int32), 0
@@ -395,6 +395,7 @@ class Matcher:
         self.fname = fname
         self.ren = {}       # template local -> actual local
         self.inv = {}
+        self.owner = {}
         self.decisions = {}
 
     def err(self, a, msg):
@@ -406,15 +407,26 @@ class Matcher:
             return t.func.id
         return None
 
-    def name(self, t, a, node):
+    def name(self, t, a, node, store=False):
+        """template local t stands for actual local a.  Two template names may share one actual
+        name only if at most one of them is not a WEB name (a template name starting with WEB
+        marks a value that the original source keeps in a variable it re-uses later for something
+        else); `owner` tracks whose value the shared actual variable currently holds, and a read
+        of the other one is refused (loop bodies are walked twice, so values carried around a
+        loop are seen too)."""
         if t in self.ren:
             if self.ren[t] != a:
                 self.err(node, f'name {a!r} where {self.ren[t]!r} was expected')
         else:
-            if a in self.inv:
+            others = self.inv.get(a, set())
+            if others and not t.startswith('WEB') and any(not o.startswith('WEB') for o in others):
                 self.err(node, f'name {a!r} is used for two different variables')
             self.ren[t] = a
-            self.inv[a] = t
+            self.inv.setdefault(a, set()).add(t)
+        if store:
+            self.owner[a] = t
+        elif self.owner.get(a, t) != t and len(self.inv.get(a, ())) > 1:
+            self.err(node, f'{a!r} is read as {t!r} but may hold the value of {self.owner[a]!r}')
 
     def stmts(self, ts, as_, ctxnode):
         ts, as_ = strip_doc(list(ts)), strip_doc(list(as_))
@@ -426,7 +438,7 @@ class Matcher:
                 key = self.marker(t.test)[len('OPTIONAL_'):]
                 inner = ast.If(test=t.test.args[0], body=t.body, orelse=t.orelse)
                 if j < len(as_) and isinstance(as_[j], ast.If):
-                    save = (dict(self.ren), dict(self.inv), dict(self.decisions))
+                    save = (dict(self.ren), {k: set(v) for k, v in self.inv.items()}, dict(self.decisions))
                     try:
                         self.node(inner, as_[j])
                         self.decisions[key] = True
@@ -489,7 +501,7 @@ class Matcher:
                 self.err(a, 'signature differs')
             sub = Matcher(self.fname + '.' + t.name) if False else self
             for x, y in zip(ta.args, aa.args):
-                self.name(x.arg, y.arg, a)
+                self.name(x.arg, y.arg, a, store=True)
             for x, y in zip(ta.defaults, aa.defaults):
                 self.node(x, y)
             if t.name in OPAQUE_NESTED:
@@ -497,7 +509,11 @@ class Matcher:
             self.stmts(t.body, a.body, a)
             return
         if isinstance(t, ast.Name):
-            self.name(t.id, a.id, a)
+            self.name(t.id, a.id, a, store=isinstance(t.ctx, (ast.Store, ast.Del)))
+            return
+        if isinstance(t, (ast.For, ast.While)):
+            self.fields(t, a)
+            self.fields(t, a)       # second walk: values carried around the loop
             return
         if isinstance(t, ast.Constant):
             if type(t.value) is not type(a.value) or t.value != a.value:
@@ -508,6 +524,9 @@ class Matcher:
                 self.err(a, f'attribute {a.attr} where {t.attr} was expected')
             self.node(t.value, a.value)
             return
+        self.fields(t, a)
+
+    def fields(self, t, a):
         for field in t._fields:
             tv, av = getattr(t, field, None), getattr(a, field, None)
             if field in ('ctx', 'type_comment', 'lineno', 'col_offset', 'kind'):
@@ -534,6 +553,538 @@ class Matcher:
                     self.err(a, f'{field}: {av!r} where {tv!r} was expected')
 
 
+# ---------------------------------------------------------------------------------------------
+# Canonical form ("meaning, not spelling").  Applied to the template AND to the source before the
+# lock-step walk when the literal walk fails.  Every rewrite preserves the meaning of the function:
+#   * module-level integer/float constants are evaluated and substituted; integer constant
+#     expressions are folded ((8 + 1) * N -> 9 * N);
+#   * x >> k -> x // 2^k,  x << k -> 2^k * x,  x & (2^k - 1) -> x % 2^k,  x * c -> c * x,
+#     a - b == 0 -> a == b;
+#   * nested one-line helpers (`def f(a): return E`) that the template does not know are inlined;
+#   * single-assignment locals with a pure arithmetic right-hand side whose operands are not
+#     re-bound while the local is live are inlined (hoisted temporaries such as
+#     first_child = 8 * v + 1 or max_dist_sq = max_dist ** 2);
+#   * `for r in range(N): t = E + r ...` (r otherwise unused) -> `for t in range(E, E + N)`;
+#     integer sums in range() arguments are put in a normal form;
+#   * consecutive `if a: continue` / `if b: continue` are merged into `if a or b: continue`.
+class Unsafe(Exception):
+    pass
+
+
+_ARITH = {ast.Add: lambda a, b: a + b, ast.Sub: lambda a, b: a - b, ast.Mult: lambda a, b: a * b,
+          ast.FloorDiv: lambda a, b: a // b, ast.Mod: lambda a, b: a % b, ast.Pow: lambda a, b: a ** b,
+          ast.LShift: lambda a, b: a << b, ast.RShift: lambda a, b: a >> b,
+          ast.BitAnd: lambda a, b: a & b, ast.BitOr: lambda a, b: a | b}
+
+
+def _is_int(n):
+    return isinstance(n, ast.Constant) and type(n.value) is int
+
+
+def _fold(op, a, b):
+    """integer constant folding; None when not applicable"""
+    f = _ARITH.get(type(op))
+    if f is None:
+        return None
+    try:
+        if isinstance(op, ast.Pow) and (b < 0 or b > 64):
+            return None
+        if isinstance(op, (ast.LShift, ast.RShift)) and not (0 <= b <= 64):
+            return None
+        v = f(a, b)
+    except Exception:
+        return None
+    return v if type(v) is int and abs(v) < 2 ** 70 else None
+
+
+def module_constants(tree):
+    """module-level `NAME = <constant expression>` (bound exactly once) -> value"""
+    count, env = {}, {}
+    for st in tree.body:
+        for n in ast.walk(st) if not isinstance(st, (ast.FunctionDef, ast.ClassDef)) else []:
+            if isinstance(n, ast.Name) and isinstance(n.ctx, ast.Store):
+                count[n.id] = count.get(n.id, 0) + 1
+
+    def ev(e):
+        if isinstance(e, ast.Constant) and type(e.value) in (int, float):
+            return e.value
+        if isinstance(e, ast.Name) and e.id in env:
+            return env[e.id]
+        if isinstance(e, ast.UnaryOp) and isinstance(e.op, ast.USub):
+            return -ev(e.operand)
+        if isinstance(e, ast.BinOp):
+            a, b = ev(e.left), ev(e.right)
+            if type(a) is int and type(b) is int:
+                v = _fold(e.op, a, b)
+                if v is not None:
+                    return v
+            if isinstance(e.op, (ast.Add, ast.Sub, ast.Mult, ast.Div)) and float in (type(a), type(b)):
+                return {ast.Add: a + b, ast.Sub: a - b, ast.Mult: a * b}.get(type(e.op)) \
+                    if not isinstance(e.op, ast.Div) else a / b
+        raise Unsafe()
+    for st in tree.body:
+        if isinstance(st, ast.Assign) and len(st.targets) == 1 and isinstance(st.targets[0], ast.Name) \
+                and count.get(st.targets[0].id) == 1:
+            try:
+                env[st.targets[0].id] = ev(st.value)
+            except Unsafe:
+                pass
+    return env
+
+
+def scope_nodes(fn):
+    """nodes of fn's own scope: nested function definitions are yielded but not entered"""
+    stack = list(ast.iter_child_nodes(fn))
+    while stack:
+        n = stack.pop()
+        yield n
+        if isinstance(n, (ast.FunctionDef, ast.Lambda, ast.ClassDef)):
+            continue
+        stack.extend(ast.iter_child_nodes(n))
+
+
+def binding_sites(fn):
+    """name -> positions where the name is (re)bound in fn's own scope (parameters, stores, nested
+    definitions; a name declared nonlocal/global anywhere below counts as bound many times)"""
+    out = {}
+
+    def add(nm, node):
+        out.setdefault(nm, []).append((getattr(node, 'lineno', 10 ** 9), getattr(node, 'col_offset', 0)))
+    for n in scope_nodes(fn):
+        if isinstance(n, ast.Name) and isinstance(n.ctx, (ast.Store, ast.Del)):
+            add(n.id, n)
+        elif isinstance(n, ast.arg) :
+            add(n.arg, n)
+        elif isinstance(n, (ast.FunctionDef, ast.ClassDef)):
+            add(n.name, n)
+        elif isinstance(n, ast.alias):
+            add((n.asname or n.name).split('.')[0], n)
+    for n in ast.walk(fn):
+        if isinstance(n, (ast.Nonlocal, ast.Global)):
+            for nm in n.names:
+                add(nm, n)
+                add(nm, n)
+    return out
+
+
+def shadowed(fn):
+    """names bound inside function definitions nested in fn (their own parameters / locals)"""
+    out = set()
+    for n in scope_nodes(fn):
+        if isinstance(n, (ast.FunctionDef, ast.Lambda)):
+            for m in ast.walk(n):
+                if isinstance(m, ast.Name) and isinstance(m.ctx, (ast.Store, ast.Del)):
+                    out.add(m.id)
+                elif isinstance(m, ast.arg):
+                    out.add(m.arg)
+                elif isinstance(m, ast.FunctionDef) and m is not n:
+                    out.add(m.name)
+    return out
+
+
+def _pure(e):
+    if isinstance(e, (ast.Name, ast.Constant)):
+        return True
+    if isinstance(e, ast.BinOp):
+        return _pure(e.left) and _pure(e.right)
+    if isinstance(e, ast.UnaryOp):
+        return _pure(e.operand)
+    if isinstance(e, ast.Call) and isinstance(e.func, ast.Name) and e.func.id == 'len' \
+            and len(e.args) == 1 and not e.keywords:
+        return _pure(e.args[0])
+    return False
+
+
+def _names(e):
+    return {n.id for n in ast.walk(e) if isinstance(n, ast.Name)}
+
+
+class _Subst(ast.NodeTransformer):
+    def __init__(self, mapping):
+        self.mapping = mapping
+
+    def visit_Name(self, n):
+        if isinstance(n.ctx, ast.Load) and n.id in self.mapping:
+            import copy
+            return copy.deepcopy(self.mapping[n.id])
+        return n
+
+
+def _blocks(fn):
+    """every statement list of fn's own scope (including fn.body)"""
+    for n in [fn] + list(scope_nodes(fn)):
+        if n is not fn and isinstance(n, (ast.FunctionDef, ast.Lambda, ast.ClassDef)):
+            continue
+        for field in ('body', 'orelse', 'finalbody'):
+            L = getattr(n, field, None)
+            if isinstance(L, list) and L and isinstance(L[0], ast.stmt):
+                yield n, field, L
+
+
+def _loads(nodes, name, in_nested=False):
+    """(number of loads of name, number of those inside nested function definitions)"""
+    tot = nested = 0
+
+    def walk(n, inner):
+        nonlocal tot, nested
+        if isinstance(n, ast.Name) and n.id == name and isinstance(n.ctx, ast.Load):
+            tot += 1
+            nested += inner
+        for ch in ast.iter_child_nodes(n):
+            walk(ch, inner or isinstance(n, (ast.FunctionDef, ast.Lambda)))
+    for n in nodes:
+        walk(n, in_nested)
+    return tot, nested
+
+
+def _stores_in(nodes):
+    out = set()
+    for r in nodes:
+        for n in ast.walk(r):
+            if isinstance(n, ast.Name) and isinstance(n.ctx, (ast.Store, ast.Del)):
+                out.add(n.id)
+            elif isinstance(n, ast.arg):
+                out.add(n.arg)
+            elif isinstance(n, (ast.Nonlocal, ast.Global)):
+                out.update(n.names)
+            elif isinstance(n, ast.FunctionDef):
+                out.add(n.name)
+    return out
+
+
+def inline_temps(fn, allow=lambda t: True):
+    """inline ONE single-assignment pure local of fn's own scope (see module comment); True if done.
+    `t = E` at position i of a statement list L is inlined when t is bound nowhere else, every
+    read of t lies in L[i+1:], no operand of E is bound in L[i+1:], and -- if t is read inside a
+    nested function (which may run at any later time) -- the assignment is a top-level statement
+    of fn and no operand of E is bound anywhere after it."""
+    sites = binding_sites(fn)
+    shadow = shadowed(fn)
+    for owner, field, L in _blocks(fn):
+        for i, st in enumerate(L):
+            if not (isinstance(st, ast.Assign) and len(st.targets) == 1 and isinstance(st.targets[0], ast.Name)):
+                continue
+            t = st.targets[0].id
+            ops = _names(st.value)
+            if len(sites.get(t, [])) != 1 or t in shadow or not _pure(st.value) or t in ops or not allow(t):
+                continue
+            rest = L[i + 1:]
+            tot_all, _ = _loads([fn], t)
+            tot, nested = _loads(rest, t)
+            if tot != tot_all or tot == 0:
+                continue
+            here = (st.lineno, st.col_offset)
+            # read only in the header of the next statement (evaluated once, immediately)?
+            nxt = rest[0] if rest else None
+            hdr = nxt.iter if isinstance(nxt, ast.For) else nxt.test if isinstance(nxt, ast.If) else None
+            immediate = hdr is not None and _loads([hdr], t) == (tot, 0)
+            if ops & _stores_in(rest) and not immediate:
+                continue
+            if nested and (L is not fn.body or ops & shadow
+                           or any(p > here for x in ops for p in sites.get(x, []))):
+                continue
+            sub = _Subst({t: st.value})
+            L[i + 1:] = [sub.visit(r) for r in rest]
+            del L[i]
+            return True
+    return False
+
+
+def inline_helpers(fn, known):
+    """nested `def f(a, b): return E` unknown to the template -> calls replaced by E[a, b := args]"""
+    changed = False
+    sites = binding_sites(fn)
+    for st in list(fn.body):
+        if not isinstance(st, ast.FunctionDef) or st.name in known or st.decorator_list:
+            continue
+        body = strip_doc(list(st.body))
+        a = st.args
+        if len(body) != 1 or not isinstance(body[0], ast.Return) or body[0].value is None \
+                or a.vararg or a.kwarg or a.kwonlyargs or a.defaults or len(sites.get(st.name, [])) != 1:
+            continue
+        params = [x.arg for x in a.args]
+        expr = body[0].value
+        # the helper must only read; names it reads besides its parameters keep their meaning
+        # at the call site because closures read the enclosing variables at call time
+        if any(isinstance(n, (ast.Lambda, ast.NamedExpr, ast.Yield, ast.Await)) for n in ast.walk(expr)):
+            continue
+        others = [o for o in scope_nodes(fn) if isinstance(o, (ast.FunctionDef, ast.Lambda)) and o is not st]
+        shadow_o = set()
+        for o in others:
+            shadow_o |= _stores_in([o])
+        if (_names(expr) - set(params)) & shadow_o:
+            continue
+        bad = [False]
+
+        class Inl(ast.NodeTransformer):
+            def visit_Call(self, c):
+                self.generic_visit(c)
+                if isinstance(c.func, ast.Name) and c.func.id == st.name:
+                    if c.keywords or len(c.args) != len(params) or \
+                            not all(isinstance(x, (ast.Name, ast.Constant)) for x in c.args):
+                        bad[0] = True
+                        return c
+                    import copy
+                    return _Subst(dict(zip(params, c.args))).visit(copy.deepcopy(expr))
+                return c
+        import copy
+        trial = copy.deepcopy(fn)
+        trial.body = [s for s in trial.body if not (isinstance(s, ast.FunctionDef) and s.name == st.name)]
+        trial = Inl().visit(trial)
+        if bad[0] or _loads([trial], st.name)[0]:
+            continue
+        fn.body = trial.body
+        changed = True
+    return changed
+
+
+def _sum_terms(e, sign, terms):
+    if isinstance(e, ast.BinOp) and isinstance(e.op, ast.Add):
+        _sum_terms(e.left, sign, terms)
+        _sum_terms(e.right, sign, terms)
+    elif isinstance(e, ast.BinOp) and isinstance(e.op, ast.Sub):
+        _sum_terms(e.left, sign, terms)
+        _sum_terms(e.right, -sign, terms)
+    else:
+        terms.append((sign, e))
+
+
+def sum_normal(e, drop=None):
+    """normal form of an INTEGER sum: positive terms, negative terms (each sorted), constant last.
+    drop: a name removed once from the positive terms (returns None if it is not there exactly once)"""
+    terms = []
+    _sum_terms(e, 1, terms)
+    const, pos, neg, dropped = 0, [], [], 0
+    for s, t in terms:
+        if _is_int(t):
+            const += s * t.value
+        elif drop and isinstance(t, ast.Name) and t.id == drop and s == 1:
+            dropped += 1
+        else:
+            (pos if s == 1 else neg).append(t)
+    if drop and (dropped != 1 or any(drop in _names(t) for t in pos + neg)):
+        return None
+    pos.sort(key=ast.dump)
+    neg.sort(key=ast.dump)
+    out = None
+    for t in pos:
+        out = t if out is None else ast.BinOp(left=out, op=ast.Add(), right=t)
+    for t in neg:
+        out = ast.UnaryOp(op=ast.USub(), operand=t) if out is None else ast.BinOp(left=out, op=ast.Sub(), right=t)
+    if out is None:
+        return ast.Constant(value=const)
+    if const > 0:
+        out = ast.BinOp(left=out, op=ast.Add(), right=ast.Constant(value=const))
+    elif const < 0:
+        out = ast.BinOp(left=out, op=ast.Sub(), right=ast.Constant(value=-const))
+    return out
+
+
+def _is_range(c):
+    return isinstance(c, ast.Call) and isinstance(c.func, ast.Name) and c.func.id == 'range' and not c.keywords
+
+
+def _only_before(fn, loop, r):
+    """all occurrences of name r outside `loop` are textually before it and not inside a loop
+    statement (of fn's scope) that also contains `loop`"""
+    inside = {id(x) for x in ast.walk(loop)}
+    enclosing = [x for x in scope_nodes(fn) if isinstance(x, (ast.For, ast.While)) and x is not loop
+                 and any(y is loop for y in ast.walk(x))]
+    enc_ids = set()
+    for e in enclosing:
+        enc_ids |= {id(x) for x in ast.walk(e)}
+    here = (loop.lineno, loop.col_offset)
+    for x in ast.walk(fn):
+        occ = (isinstance(x, ast.Name) and x.id == r) or (isinstance(x, ast.arg) and x.arg == r) \
+            or (isinstance(x, (ast.Nonlocal, ast.Global)) and r in x.names)
+        if not occ or id(x) in inside:
+            continue
+        if isinstance(x, (ast.arg, ast.Nonlocal, ast.Global)) and x in list(scope_nodes(fn)):
+            return False
+        if id(x) in enc_ids or (getattr(x, 'lineno', 10 ** 9), getattr(x, 'col_offset', 0)) >= here:
+            return False
+    return True
+
+
+def _stores_then_break(body, names):
+    """inside a loop body: every statement that binds one of `names` is a plain assignment directly
+    followed by `break` of that loop (so the bound value is never seen by a later iteration)"""
+    def block(L, in_inner_loop):
+        for j, st in enumerate(L):
+            if isinstance(st, (ast.Assign, ast.AugAssign, ast.AnnAssign)):
+                if _stores_in([st]) & names:
+                    if in_inner_loop or j + 1 >= len(L) or not isinstance(L[j + 1], ast.Break):
+                        return False
+                continue
+            if isinstance(st, (ast.For, ast.While)):
+                if _stores_in([st.target] if isinstance(st, ast.For) else []) & names:
+                    return False
+                if not block(st.body, True) or not block(st.orelse, True):
+                    return False
+                continue
+            if isinstance(st, ast.If):
+                if not block(st.body, in_inner_loop) or not block(st.orelse, in_inner_loop):
+                    return False
+                continue
+            if _stores_in([st]) & names:
+                return False
+        return True
+    return block(body, False)
+
+
+def rewrite_index_loops(fn):
+    """for r in range(N): t = E + r; rest   ->   for t in range(E, E + N): rest
+    (in fn's own scope; r and t bound nowhere else, r read only in that assignment, t read only
+    in rest and not inside a nested function, the operands of E not bound in rest)"""
+    changed = False
+    sites = binding_sites(fn)
+    shadow = shadowed(fn)
+    for n in scope_nodes(fn):
+        if not (isinstance(n, ast.For) and isinstance(n.target, ast.Name) and _is_range(n.iter)
+                and len(n.iter.args) == 1 and _is_int(n.iter.args[0]) and not n.orelse and n.body):
+            continue
+        r, N = n.target.id, n.iter.args[0].value
+        st = n.body[0]
+        if not (isinstance(st, ast.Assign) and len(st.targets) == 1 and isinstance(st.targets[0], ast.Name)):
+            continue
+        t = st.targets[0].id
+        if len(sites.get(t, [])) != 1 or t == r or {r, t} & shadow:
+            continue
+        if _loads([st.value], r)[0] != 1 or _loads(n.body, r)[0] != 1 or r in _stores_in(n.body):
+            continue
+        # every other occurrence of r lies textually before this loop and outside the loops that
+        # enclose it, so it can neither see nor disturb this loop's index
+        if not _only_before(fn, n, r):
+            continue
+        if _loads([fn], t)[0] != _loads(n.body[1:], t)[0] or _loads(n.body[1:], t)[1]:
+            continue
+        lo = sum_normal(st.value, drop=r)
+        if lo is None or not _pure(lo) or not _stores_then_break(n.body[1:], _names(lo)):
+            continue
+        import copy
+        hi = sum_normal(ast.BinOp(left=copy.deepcopy(lo), op=ast.Add(), right=ast.Constant(value=N)))
+        n.target = ast.copy_location(ast.Name(id=t, ctx=ast.Store()), st.targets[0])
+        n.iter = ast.Call(func=ast.Name(id='range', ctx=ast.Load()), args=[lo, hi], keywords=[])
+        n.body = n.body[1:] or [ast.Pass()]
+        changed = True
+    return changed
+
+
+class _Arith(ast.NodeTransformer):
+    def __init__(self, consts, local):
+        self.consts, self.local = consts, local
+
+    def visit_Name(self, n):
+        if isinstance(n.ctx, ast.Load) and n.id in self.consts and n.id not in self.local:
+            return ast.copy_location(ast.Constant(value=self.consts[n.id]), n)
+        return n
+
+    def visit_BinOp(self, n):
+        self.generic_visit(n)
+        a, b = n.left, n.right
+        if _is_int(a) and _is_int(b):
+            v = _fold(n.op, a.value, b.value)
+            if v is not None:
+                return ast.copy_location(ast.Constant(value=v), n)
+        if _is_int(b) and isinstance(n.op, ast.RShift) and 0 <= b.value <= 62:
+            return ast.copy_location(ast.BinOp(left=a, op=ast.FloorDiv(), right=ast.Constant(value=2 ** b.value)), n)
+        if _is_int(b) and isinstance(n.op, ast.LShift) and 0 <= b.value <= 62:
+            return ast.copy_location(ast.BinOp(left=ast.Constant(value=2 ** b.value), op=ast.Mult(), right=a), n)
+        if _is_int(b) and isinstance(n.op, ast.BitAnd) and b.value >= 1 and (b.value & (b.value + 1)) == 0:
+            return ast.copy_location(ast.BinOp(left=a, op=ast.Mod(), right=ast.Constant(value=b.value + 1)), n)
+        if isinstance(n.op, ast.Mult) and isinstance(b, ast.Constant) and not isinstance(a, ast.Constant):
+            n.left, n.right = b, a
+        return n
+
+    def visit_Compare(self, n):
+        self.generic_visit(n)
+        if len(n.ops) == 1 and isinstance(n.ops[0], (ast.Eq, ast.NotEq)) and _is_int(n.comparators[0]) \
+                and n.comparators[0].value == 0 and isinstance(n.left, ast.BinOp) and isinstance(n.left.op, ast.Sub):
+            return ast.copy_location(ast.Compare(left=n.left.left, ops=n.ops, comparators=[n.left.right]), n)
+        return n
+
+    def visit_Call(self, n):
+        self.generic_visit(n)
+        if _is_range(n):
+            n.args = [sum_normal(a) if _pure(a) else a for a in n.args]
+        return n
+
+
+def merge_guards(fn):
+    """if a: continue / if b: continue  ->  if a or b: continue   (same for break)"""
+    for owner, field, L in list(_blocks(fn)):
+        out = []
+        for st in L:
+            if out and isinstance(st, ast.If) and not st.orelse and len(st.body) == 1 \
+                    and isinstance(st.body[0], (ast.Continue, ast.Break)):
+                p = out[-1]
+                if isinstance(p, ast.If) and not p.orelse and len(p.body) == 1 \
+                        and type(p.body[0]) is type(st.body[0]) \
+                        and not any(isinstance(q, ast.Call) and isinstance(q.func, ast.Name)
+                                    and q.func.id.startswith(('DECISION_', 'OPTIONAL_'))
+                                    for q in (p.test, st.test)):
+                    vals = []
+                    for tst in (p.test, st.test):
+                        vals += tst.values if isinstance(tst, ast.BoolOp) and isinstance(tst.op, ast.Or) else [tst]
+                    p.test = ast.copy_location(ast.BoolOp(op=ast.Or(), values=vals), p.test)
+                    continue
+            out.append(st)
+        L[:] = out
+    # a flat `or` of more than the template's operands is compared operand by operand
+    return fn
+
+
+def scopes(fn):
+    return [n for n in ast.walk(fn) if isinstance(n, ast.FunctionDef)]
+
+
+class _All:
+    def __contains__(self, x):
+        return True
+
+
+ALL_NAMES = _All()      # temps=ALL_NAMES: no temporary is inlined
+
+
+def local_names(fn):
+    out = set()
+    for sc in scopes(fn):
+        out |= set(binding_sites(sc))
+    return out
+
+
+def canonical(fn, consts, known_nested, temps=None):
+    """temps=None: every safe temporary is inlined; temps=<set of names>: only temporaries whose
+    name is NOT in the set (locals the template does not know) are inlined"""
+    import copy
+    fn = copy.deepcopy(fn)
+    local = local_names(fn)
+    allow = (lambda t: True) if temps is None else (lambda t: t not in temps)
+    for _ in range(5):
+        fn = ast.fix_missing_locations(_Arith(consts, local).visit(fn))
+        ch = False
+        for sc in scopes(fn):
+            ch = inline_helpers(sc, known_nested) or ch
+        for sc in scopes(fn):
+            ch = rewrite_index_loops(sc) or ch
+            ast.fix_missing_locations(fn)
+        for sc in scopes(fn):
+            n = 0
+            while inline_temps(sc, allow) and n < 40:
+                n += 1
+                ch = True
+            ast.fix_missing_locations(fn)
+        if not ch:
+            break
+    for sc in scopes(fn):
+        merge_guards(sc)
+    return ast.fix_missing_locations(fn)
+
+
+def nested_names(fn):
+    return {n.name for n in ast.walk(fn) if isinstance(n, ast.FunctionDef) and n is not fn}
+
+
 GLOBAL_NAMES = {'np', 'heapq', 'len', 'range', 'min', 'max', 'abs', 'self', 'True', 'False'}
 
 
@@ -544,32 +1095,95 @@ def find_def(tree, name):
     raise TranslateError(f'{name} not found')
 
 
-def translate(repo):
+BASELINE_CFG = {'kth_cmp': 'Gt', 'bound_cmp': 'Gt', 'join_or': True, 'skip_empty': True,
+                'leaf_cmp': 'Gt', 'leaf_upd': 'PushPop'}     # = cfg_code of coq/C16/Model.v
+
+# what each matched function decides (which correspondence streams must be widened when the
+# function cannot be read)
+AFFECTS = {
+    'build_octree_node': ('knn', 'hd'),
+    '_nns_from_nodes_to_nodes': ('knn',),
+    'nearest_neighbor_search_from_nodes_to_nodes': ('knn',),
+    '_calc_directed_hausdorff_nodes': ('hd',),
+    'calculate_hausdorff_distance_nodes': ('hd',),
+    '_calculate_euclidean_hop_graph_nodal': ('hop',),
+    '_calculate_euclidean_hop_graph_elemental': ('hop',),
+}
+
+
+def match_one(fname, tdef, adef):
+    m = Matcher(fname)
+    for g in GLOBAL_NAMES:
+        m.ren[g] = g
+        m.inv[g] = {g}
+    m.node(tdef, adef)
+    # module-level / free names must not have been renamed
+    for t, a in m.ren.items():
+        if t != a and (t in GLOBAL_NAMES or a in GLOBAL_NAMES):
+            raise TranslateError(f'{fname}: global name {t} renamed to {a}')
+    if fname == '_nns_from_nodes_to_nodes':
+        d = m.decisions
+        need = ['kth_cmp', 'bound_cmp', 'join_or', 'skip_empty', 'leaf_cmp', 'leaf_upd']
+        for kx in need:
+            if kx not in d:
+                raise TranslateError(f'{fname}: decision point {kx} not found')
+        return {kx: d[kx] for kx in need}
+    return None
+
+
+def translate_each(repo):
+    """-> (cfg or None, consumed, status) with status[fname] = 'literal' | 'canonical' |
+    'unread: <reason>'.  A function is first walked literally against its template; if that
+    fails both are put in canonical form and walked again; if that fails too the function is
+    *unread* (the caller falls back to the baseline model and a widened correspondence)."""
     path = Path(repo) / 'femio' / 'graph_processor.py'
     src = path.read_text()
     tree = ast.parse(src)
-    consumed = {}
-    cfg = None
+    consts = module_constants(tree)
+    consumed, status, cfg = {}, {}, None
     for fname, tsrc in TEMPLATES.items():
         tdef = ast.parse(textwrap.dedent(tsrc)).body[0]
-        adef = find_def(tree, fname)
+        try:
+            adef = find_def(tree, fname)
+        except TranslateError as e:
+            status[fname] = 'unread: ' + str(e)
+            continue
         consumed['femio/graph_processor.py:' + fname + ' (control flow)'] = sha(ast.get_source_segment(src, adef))
-        m = Matcher(fname)
-        for g in GLOBAL_NAMES:
-            m.ren[g] = g
-            m.inv[g] = g
-        m.node(tdef, adef)
-        # module-level / free names must not have been renamed
-        for t, a in m.ren.items():
-            if t != a and (t in GLOBAL_NAMES or a in GLOBAL_NAMES):
-                raise TranslateError(f'{fname}: global name {t} renamed to {a}')
+        try:
+            c = match_one(fname, tdef, adef)
+            status[fname] = 'literal'
+        except TranslateError as e1:
+            known = nested_names(tdef)
+            errs = []
+            c = None
+            # strategy A: inline every safe temporary on both sides; strategy B: keep the
+            # template's locals, inline only the locals the template does not know
+            for label, tmode, amode in (('A', None, None), ('B', set(local_names(tdef)) | {'__all__'},
+                                                            set(local_names(tdef)))):
+                try:
+                    tt = canonical(tdef, {}, known, temps=None if tmode is None else ALL_NAMES)
+                    aa = canonical(adef, consts, known, temps=amode)
+                    c = match_one(fname, tt, aa)
+                    status[fname] = 'canonical'
+                    errs = None
+                    break
+                except TranslateError as e2:
+                    errs.append(f'canonical form {label}: {e2}')
+                except (RecursionError, ValueError, TypeError, AttributeError, KeyError, IndexError) as e2:
+                    errs.append(f'canonicaliser {label}: {type(e2).__name__}: {e2}')
+            if errs is not None:
+                status[fname] = f'unread: {e1} / ' + ' / '.join(errs)
+                continue
         if fname == '_nns_from_nodes_to_nodes':
-            d = m.decisions
-            need = ['kth_cmp', 'bound_cmp', 'join_or', 'skip_empty', 'leaf_cmp', 'leaf_upd']
-            for kx in need:
-                if kx not in d:
-                    raise TranslateError(f'{fname}: decision point {kx} not found')
-            cfg = {kx: d[kx] for kx in need}
+            cfg = c
+    return cfg, consumed, status
+
+
+def translate(repo):
+    cfg, consumed, status = translate_each(repo)
+    bad = {f: s for f, s in status.items() if s.startswith('unread')}
+    if bad:
+        raise TranslateError('; '.join(f'{f}: {s}' for f, s in bad.items()))
     return cfg, consumed
 
 
@@ -588,5 +1202,7 @@ def emit(cfg):
 
 if __name__ == '__main__':
     import sys
-    cfg, consumed = translate(sys.argv[1] if len(sys.argv) > 1 else '/repo')
-    print(emit(cfg))
+    cfg, consumed, status = translate_each(sys.argv[1] if len(sys.argv) > 1 else '/repo')
+    for f, st in status.items():
+        print(f'(* {f}: {st} *)')
+    print(emit(cfg or BASELINE_CFG))
